@@ -318,6 +318,14 @@ func (m *Manager) downloadAll(deps []*chart.Dependency) error {
 			break
 		}
 
+		// The credentials belong to the dependency's repository: only hand them to the
+		// downloader when the chart lives on that repository's origin (or the user opted
+		// in with pass-credentials). DownloadTo may re-scope the getter to another
+		// configured repository that lists the same URL.
+		if !passcredentialsall && !sameOrigin(dep.Repository, churl) {
+			username, password = "", ""
+		}
+
 		if _, ok := churls[churl]; ok {
 			fmt.Fprintf(m.Out, "Already downloaded %s from repo %s\n", dep.Name, dep.Repository)
 			continue
@@ -371,6 +379,19 @@ func (m *Manager) downloadAll(deps []*chart.Dependency) error {
 		return saveError
 	}
 	return nil
+}
+
+// sameOrigin reports whether two URLs have the same scheme and host (including port).
+func sameOrigin(a, b string) bool {
+	ua, err := url.Parse(a)
+	if err != nil {
+		return false
+	}
+	ub, err := url.Parse(b)
+	if err != nil {
+		return false
+	}
+	return ua.Scheme == ub.Scheme && ua.Host == ub.Host
 }
 
 func parseOCIRef(chartRef string) (string, string, error) {
